@@ -333,8 +333,15 @@ impl Case {
 /// script transaction. `n_listed` of the deployed contracts are listed as inputs; with
 /// `knobs.unlisted_pm > 0` the remaining call structs point at deployed-but-unlisted or absent contracts.
 pub fn gen_case(rng: &mut Rng, knobs: Knobs, gas_limit: Word, custom_script: Option<Vec<u8>>) -> Case {
+    gen_case_with(rng, knobs, gas_limit, custom_script, None, None)
+}
+
+/// as `gen_case`, with a gas schedule other than the default and/or given bytes as the code of the first contract
+pub fn gen_case_with(rng: &mut Rng, knobs: Knobs, gas_limit: Word, custom_script: Option<Vec<u8>>,
+                     costs: Option<fuel_tx::GasCosts>, custom_contract: Option<Vec<u8>>) -> Case {
     let seed = rng.next();
     let mut tb = TestBuilder::new(seed);
+    if let Some(c) = &costs { tb.with_gas_costs(c.clone()); }
     let n_contracts = rng.range(1, 4) as usize;
     let base = AssetId::zeroed(); // TestBuilder's consensus parameters use the zero base asset
     let assets = [base, AssetId::new(rng.arr32()), AssetId::new(rng.arr32()), AssetId::new(rng.arr32())];
@@ -353,7 +360,10 @@ pub fn gen_case(rng: &mut Rng, knobs: Knobs, gas_limit: Word, custom_script: Opt
         g.knobs.max_blocks = knobs.max_blocks.min(6);
         let code = program(&mut g);
         let bal = if rng.chance(1, 2) { Some((assets[rng.below(2) as usize], rng.below(1000))) } else { None };
-        let created = tb.setup_contract(code, bal, None);
+        let created = match (&custom_contract, i) {
+            (Some(bytes), 0) => tb.setup_contract_bytes(bytes.clone(), bal, None),
+            _ => tb.setup_contract(code, bal, None),
+        };
         call_ids[i] = created.contract_id;
         deployed.push(i);
     }
@@ -393,7 +403,8 @@ pub fn gen_case(rng: &mut Rng, knobs: Knobs, gas_limit: Word, custom_script: Opt
     if rng.chance(2, 3) { tb.change_output(assets[1]); }
     let checked = tb.build();
     let storage = tb.get_storage().clone();
-    let params = ConsensusParameters::standard();
+    let mut params = ConsensusParameters::standard();
+    if let Some(c) = costs { params.set_gas_costs(c); }
     Case { checked, storage, params, script, call_ids, listed, deployed, gas_limit }
 }
 
